@@ -18,7 +18,7 @@ func init() {
 	}
 	register(&Rule{ID: "C05.atomic", Floor: 25,
 		Text:     "failure atomicity: in every exported operation of MemFS and OrefaFS except RemoveAll (documented to remove what it can), no instruction that changes the tree (entry-map update, node release, truncate, store to a node attribute) or the view's working directory (SetCurDir) can be followed by a return that reports an error; check-and-set helpers (setMode, setModTime) change the node only when they return true",
-		Also:     []string{"C01", "C02", "C06", "C11"},
+		Also:     []string{"C01", "C02", "C06", "C11", "C14"},
 		AlsoOnly: map[string][]string{"C11": {"SetCurDir()"}}, AlsoFloor: map[string]int{"C11": 1},
 		Run: c05Atomic})
 	register(&Rule{ID: "C05.nlink", Floor: 8, AlsoOnly: map[string][]string{"C11": {"releases-removed-node"}}, AlsoFloor: map[string]int{"C11": 2},
@@ -354,6 +354,55 @@ func c05Nlink(rc *RuleCtx) {
 				rc.bad(cons, f.Pos(), bad)
 			} else {
 				rc.good(cons, f.Pos(), fmt.Sprintf("%d release call(s), on every path / iteration", len(ucs)))
+			}
+			// (b') the converse inside a loop over the entries: a node released in an iteration has its entry removed in
+			// that iteration, unless the loop cannot be left with an error (then dropping the whole map afterwards is
+			// the same): otherwise a failure in a later iteration leaves names listed whose nodes were released
+			for _, uc := range ucs {
+				lp := enclosingRangeHeader(uc.in)
+				if lp == nil {
+					continue
+				}
+				cons2 := funcName(f) + " released-entries-unlinked"
+				inLoop := func(b *ssa.BasicBlock) bool { return lp.Dominates(b) && reachableFrom(b)[lp] }
+				errExit := false
+				// a return reached from inside the body: dominated by the header but not by the block the loop is left to
+				var exitB *ssa.BasicBlock
+				if iff, ok := lp.Instrs[len(lp.Instrs)-1].(*ssa.If); ok && iff != nil && len(lp.Succs) == 2 {
+					exitB = lp.Succs[1]
+				}
+				fromBody := func(b *ssa.BasicBlock) bool {
+					return lp.Dominates(b) && b != lp && (exitB == nil || !exitB.Dominates(b))
+				}
+				for _, r := range returnsOf(f) {
+					if ei >= 0 && fromBody(r.Block()) {
+						for _, o := range originsOf(r.Results[ei]) {
+							if k, isC := o.(*ssa.Const); !isC || !k.IsNil() {
+								errExit = true
+							}
+						}
+					}
+				}
+				unlinked := false
+				for _, u := range entryMapUpdates(f) {
+					if u.del && inLoop(u.in.Block()) {
+						unlinked = true
+					}
+				}
+				eachCall(f, func(ci ssa.CallInstruction) {
+					if fn := calleeFunc(ci); fn != nil && nm(fn) == "removeChild" && inLoop(ci.Block()) {
+						unlinked = true
+					}
+				})
+				switch {
+				case unlinked:
+					rc.good(cons2, uc.Pos(), "the entry is removed in the iteration that releases its node")
+				case !errExit:
+					rc.good(cons2, uc.Pos(), "the loop cannot be left with an error: the whole map is dropped afterwards")
+				default:
+					rc.bad(cons2, uc.Pos(), "nodes are released one by one while their entries stay in the directory, and the loop can be left with an error: after a partial failure the directory lists names whose nodes were released (a hard link kept elsewhere reports a link count that is one too low)")
+				}
+				break
 			}
 		}
 		// (c) Rename displacement
